@@ -1,6 +1,8 @@
 package main
 
 import (
+	"runtime/debug"
+	"runtime/pprof"
 	"encoding/json"
 	"flag"
 	"fmt"
@@ -45,6 +47,7 @@ type Output struct {
 	InitNotes []string          `json:"init_notes,omitempty"`
 	Steps     int64             `json:"steps"`
 	Meta      map[string]string `json:"meta,omitempty"`
+	DecKinds  map[string]int    `json:"decision_kinds,omitempty"`
 }
 
 func main() {
@@ -62,6 +65,7 @@ func main() {
 		maxPaths  = flag.Int("maxpaths", 0, "stop after this many paths (0 = no limit); run is then incomplete")
 		solverBin = flag.String("solver", "z3-new", "solver binary")
 		timeoutMs = flag.Int("timeout", 20000, "per-query timeout (ms)")
+		retryMs   = flag.Int("retry", 120000, "fresh-solver retry budget for unknown answers (ms, 0 = off)")
 		trackW    = flag.Bool("trackwrites", false, "record write footprints")
 		traceSMT  = flag.String("tracesmt", "", "file to dump SMT text to (worker 0)")
 		deadline  = flag.Int("deadline", 0, "wall-clock budget in seconds (0 = none); run is then incomplete")
@@ -71,7 +75,14 @@ func main() {
 	)
 	flag.Var(&params, "param", "name=value (repeatable)")
 	flag.Var(&picks, "pick", "label=value (repeatable)")
+	cpuprof := flag.String("cpuprofile", "", "write cpu profile")
 	flag.Parse()
+	if *cpuprof != "" {
+		f, _ := os.Create(*cpuprof)
+		pprof.StartCPUProfile(f)
+		defer pprof.StopCPUProfile()
+	}
+	debug.SetGCPercent(400)
 	t0 := time.Now()
 	output := &Output{Harness: *harness, Pkg: *pkgPath, Tags: *tags, Params: map[string]int{}, Picks: map[string]int{}, Counts: map[string]int{}}
 	for _, p := range params {
@@ -167,7 +178,7 @@ func main() {
 
 	ex := &Explorer{prog: P, entry: entry, cfg: Config{Workers: *workers, MaxDecisions: *maxDec, MaxConcretize: *maxConc, MaxSteps: *maxSteps,
 		MaxPaths: *maxPaths, SolverBin: *solverBin, SolverArgs: solverArgs(*solverBin), TimeoutMs: *timeoutMs, Params: output.Params, Picks: output.Picks,
-		TrackWrites: *trackW, TraceSMT: *traceSMT}}
+		TrackWrites: *trackW, Tally: os.Getenv("GOSYM_TALLY") != "", TraceSMT: *traceSMT, RetryMs: *retryMs}}
 	if *deadline > 0 {
 		ex.cfg.Deadline = time.Now().Add(time.Duration(*deadline) * time.Second)
 	}
@@ -197,6 +208,7 @@ func main() {
 		output.Stats.SolverSec += s.SolverSec
 	}
 	output.Funcs = ex.funcs
+	output.DecKinds = ex.decKinds
 	output.Complete = !ex.stopped
 	output.WallS = time.Since(t0).Seconds()
 	writeOut(*out, output)
